@@ -298,13 +298,15 @@ impl Gen {
                         (-32768, 32767),
                         (0, 50000),
                         (-40000, 40000),
+                        (7, 7),
+                        (0, 0),
                     ]));
                 }
             }
             3..=4 => {
                 c.ty = CType::I32;
                 if self.rng.chance(250) {
-                    c.range = Some(*self.rng.pick(&[(-5, 100), (-2147483647, 2147483647), (0, 70000), (1, 2)]));
+                    c.range = Some(*self.rng.pick(&[(-5, 100), (-2147483647, 2147483647), (0, 70000), (1, 2), (7, 7), (0, 0)]));
                 }
             }
             _ => {
@@ -1490,6 +1492,21 @@ impl Gen {
         let ci = *self.rng.pick(&cands);
         let tok = self.token(false);
         let v = Val::Str(format!("{}{}{}", tok, self.rng.pick(&bad), self.rng.pick(&bad)));
+        if self.rng.chance(400) {
+            // a batch that is refused because of its *last* row, after a valid row with such text
+            for _ in 0..4 {
+                let mut r1 = self.gen_row(&t);
+                r1[ci] = v.clone();
+                let dup = t.rows[self.rng.usize_below(t.rows.len())].clone();
+                let rows = vec![r1.clone(), dup];
+                if self.model.plan_insert(&table, &[r1]).is_ok() && self.model.plan_insert(&table, &rows).is_err() {
+                    self.push(Op::Insert { table, rows });
+                    self.push(Op::Observe);
+                    return;
+                }
+            }
+            return;
+        }
         let k0 = t.key_idx()[0];
         let target = t.rows[self.rng.usize_below(t.rows.len())][k0].clone();
         let cond = Some(Cond::Cmp(t.cols[k0].name.clone(), CmpOp::Eq, target));
@@ -1507,6 +1524,139 @@ impl Gen {
         if let Ok(nt) = self.model.plan_update(&table, &sets, &cond) {
             self.model.tables.insert(table.clone(), nt);
             self.push(Op::Update { table, sets, cond });
+        }
+    }
+
+    /// A save window whose only change is the removal of a table that never held a row.
+    fn macro_quiet_drop(&mut self) {
+        self.table_seq += 1;
+        let name = format!("Qd{}", self.table_seq);
+        let cols = vec![ColSpec::new("Key", CType::Str(20)).key(), ColSpec::new(&format!("Val{}", self.table_seq), CType::I16).nullable()];
+        if self.model.expect_create_table(&name, &cols) != Expect::Ok {
+            return;
+        }
+        self.model.apply_create_table(&name, &cols);
+        self.push(Op::CreateTable { name: name.clone(), cols });
+        let r1 = self.op_restart();
+        self.push(r1);
+        if self.model.expect_drop_table(&name) != Expect::Ok {
+            return;
+        }
+        self.model.apply_drop_table(&name);
+        self.push(Op::DropTable { name });
+        let r2 = self.op_restart();
+        self.push(r2);
+        self.push(Op::Observe);
+    }
+
+    /// Names that differ only in letter case are different names: two tables, and
+    /// two columns of one table; then statements that name the later one.
+    fn macro_case_names(&mut self) {
+        self.table_seq += 1;
+        let n = self.table_seq;
+        let (a, b) = (format!("Widget{}", n), format!("WIDGET{}", n));
+        let cols = vec![
+            ColSpec::new("K", CType::I16).key(),
+            ColSpec::new("Size", CType::I16).nullable(),
+            ColSpec::new("SIZE", CType::I16).nullable(),
+            ColSpec::new("size", CType::Str(0)).nullable(),
+        ];
+        for t in [&a, &b] {
+            if self.model.expect_create_table(t, &cols) != Expect::Ok {
+                return;
+            }
+            self.model.apply_create_table(t, &cols);
+            self.push(Op::CreateTable { name: t.clone(), cols: cols.clone() });
+            let tok = self.token(false);
+            let rows: Vec<Vec<Val>> = (1..=3).map(|i| vec![Val::Int(i), Val::Int(10 * i), Val::Int(100 * i), Val::Str(format!("{}{}", tok, i))]).collect();
+            if let Ok(nt) = self.model.plan_insert(t, &rows) {
+                self.model.tables.insert(t.clone(), nt);
+                self.push(Op::Insert { table: t.clone(), rows });
+            }
+        }
+        let sets = vec![("SIZE".to_string(), Val::Int(7))];
+        let cond = Some(Cond::Cmp("SIZE".into(), CmpOp::Ge, Val::Int(200)));
+        if let Ok(nt) = self.model.plan_update(&b, &sets, &cond) {
+            self.model.tables.insert(b.clone(), nt);
+            self.push(Op::Update { table: b.clone(), sets, cond });
+        }
+        self.push(Op::Select { table: a.clone(), cols: vec!["size".into(), "SIZE".into()], cond: Some(Cond::Cmp("Size".into(), CmpOp::Lt, Val::Int(25))) });
+        if self.rng.chance(500) {
+            let r = self.op_restart();
+            self.push(r);
+        }
+        let victim = if self.rng.chance(500) { a } else { b };
+        if self.model.expect_drop_table(&victim) == Expect::Ok {
+            self.model.apply_drop_table(&victim);
+            self.push(Op::DropTable { name: victim });
+        }
+        self.push(Op::Observe);
+    }
+
+    /// A catalog whose own streams outgrow 8 KiB: a dozen tables of 32 columns.
+    fn macro_big_catalog(&mut self) {
+        if self.model.tables.len() > 8 {
+            return;
+        }
+        let nt = 12 + self.rng.usize_below(3);
+        for _ in 0..nt {
+            self.table_seq += 1;
+            let name = format!("Wide{}", self.table_seq);
+            let cols: Vec<ColSpec> = (0..32)
+                .map(|i| {
+                    let mut c = ColSpec::new(&format!("Col{}x{}", i, self.table_seq), if i % 2 == 0 { CType::Str(40) } else { CType::I16 });
+                    c.key = i == 0;
+                    c.nullable = i != 0;
+                    if i % 2 == 0 {
+                        c.category = Some("Identifier".into());
+                    } else if i % 5 == 0 {
+                        c.range = Some((1, 100));
+                    }
+                    c
+                })
+                .collect();
+            if self.model.expect_create_table(&name, &cols) != Expect::Ok {
+                return;
+            }
+            self.model.apply_create_table(&name, &cols);
+            self.push(Op::CreateTable { name, cols });
+        }
+        let r = self.op_restart();
+        self.push(r);
+        self.push(Op::Observe);
+    }
+
+    /// A table with a binary-data column, and streams named like its rows' data streams.
+    fn macro_binary_table(&mut self) {
+        self.table_seq += 1;
+        let name = format!("Bin{}", self.table_seq);
+        let mut k = ColSpec::new("Name", CType::Str(72)).key();
+        k.category = Some("Identifier".into());
+        let mut dcol = ColSpec::new("Data", CType::Str(0));
+        dcol.category = Some("Binary".into());
+        dcol.nullable = true;
+        let cols = vec![k, dcol];
+        match self.model.expect_create_table(&name, &cols) {
+            Expect::Err => return,
+            _ => {}
+        }
+        // (outcome left open by the model: the executor applies it if accepted)
+        if self.model.expect_create_table(&name, &cols) == Expect::Ok {
+            self.model.apply_create_table(&name, &cols);
+        }
+        self.push(Op::CreateTable { name: name.clone(), cols });
+        for suffix in ["Banner", "Logo.ico"] {
+            let sname = format!("{}.{}", name, suffix);
+            self.serial += 1;
+            let dseed = self.serial;
+            let steps = vec![WStep::Write(300 + self.rng.below(5000) as u32), WStep::Flush];
+            if self.model.expect_write_stream(&sname) == Expect::Ok {
+                self.model.apply_write_stream(&sname, dseed, &steps);
+                if !self.stream_names.contains(&sname) {
+                    self.stream_names.push(sname.clone());
+                }
+            }
+            self.push(Op::WriteStream { name: sname, dseed, steps });
         }
     }
 
@@ -1582,6 +1732,33 @@ impl Gen {
         if matches!(self.profile, Profile::Clean | Profile::Benign | Profile::Crash | Profile::Reject | Profile::Schema) && self.rng.chance(35) {
             self.macro_quiet_bump();
             return;
+        }
+        if self.handles_open.is_empty() {
+            let p = self.profile;
+            if matches!(p, Profile::Clean | Profile::Crash) && self.rng.chance(6) {
+                self.macro_dotted_names();
+                return;
+            }
+            if matches!(p, Profile::Clean | Profile::Crash | Profile::Reject | Profile::Foreign | Profile::Schema) && self.rng.chance(10) {
+                self.macro_quiet_drop();
+                return;
+            }
+            if matches!(p, Profile::Clean | Profile::Reject | Profile::Foreign | Profile::Schema | Profile::Benign) && self.rng.chance(8) {
+                self.macro_case_names();
+                return;
+            }
+            if p == Profile::Schema && self.rng.chance(4) {
+                self.macro_big_catalog();
+                return;
+            }
+            if p == Profile::Schema && self.rng.chance(5) {
+                self.macro_bulk();
+                return;
+            }
+            if matches!(p, Profile::ReadOnly | Profile::Streams | Profile::Foreign) && self.rng.chance(12) {
+                self.macro_binary_table();
+                return;
+            }
         }
         if matches!(self.profile, Profile::Reject | Profile::Clean | Profile::Foreign) && self.handles_open.is_empty() && self.rng.chance(25) {
             self.macro_unencodable();
@@ -2119,7 +2296,7 @@ pub fn gen_corruption(rng: &mut Prng) -> CorruptSpec {
         59..=70 => CorruptSpec::StreamLen(rng.next_u64() as u32, rng.below(5) as u8, rng.next_u64() as u32),
         71..=74 => CorruptSpec::PoolHeader(rng.below(4) as u8),
         75..=84 => CorruptSpec::PoolEntry(rng.next_u64() as u32, rng.below(10) as u8),
-        85..=92 => CorruptSpec::PropSet(rng.below(18) as u8, rng.next_u64() as u32),
+        85..=92 => CorruptSpec::PropSet(rng.below(20) as u8, rng.next_u64() as u32),
         93..=94 => CorruptSpec::DataHighBit(rng.next_u64() as u32),
         95..=96 => CorruptSpec::AddEntry(rng.below(8) as u8),
         97 => CorruptSpec::PoolGrow(*rng.pick(&[1u32, 70, 65_535, 70_000, 80_000])),
